@@ -6,6 +6,7 @@ the transport, and (C15) the recorded queue_send calls.
 """
 from sim import refdec
 from sim.core import RES
+from .timing import fire_limit, fire_start
 
 GROUP = ("224.224.224.245", 30490)
 DEF = dict(
@@ -90,6 +91,8 @@ class AnnounceOracle:
         self.violations = []
         self.probes = {}
         self.states = set()
+        self.await_draw = []
+        self.order = []  # instances in the order they were registered with the announcer
         self.expect = []  # find answers: dict(p, inst, lo, hi, required, allowed, tf, mc, done)
         self.noffers = 0
         self.nanswers = 0
@@ -105,29 +108,49 @@ class AnnounceOracle:
     def viol(self, rule, msg, ctx):
         self.violations.append((rule, {"msg": msg, "context": ctx}))
 
-    def tol(self, lo, hi):
-        return sum(t1 - t0 for t0, t1 in self.busy if t0 <= hi + (t1 - t0) and t1 >= lo)
+    def FL(self, t):
+        return fire_limit(self.busy, t)
+
+    def sent_by(self, t_queue_latest):
+        """latest transmission instant of an entry queued no later than t_queue_latest"""
+        return fire_limit(self.busy, fire_limit(self.busy, t_queue_latest) + self.tau)
 
     # ------------------------------------------------------------ lifecycle
     def _start(self, ins, T):
-        if ins.running or ins.broken:
+        if ins.broken:
+            self.await_draw.append(ins)  # still registered with the announcer: its task still draws its delay
+            return
+        if ins.running:
             return
         ins.reset()
         ins.running = True
         ins.t_start = T
         ins.Q = (T + ins.t["INITIAL_DELAY_MIN"], T + ins.t["INITIAL_DELAY_MAX"])
+        self.await_draw.append(ins)
+
+    def on_uniform(self, T, a, b, v):
+        """the library asked the (simulated) random source for a delay: the offer task of a
+        freshly started instance does so once, in start order, before anything else"""
+        for n, ins in enumerate(self.await_draw):
+            if (a, b) == (ins.t["INITIAL_DELAY_MIN"], ins.t["INITIAL_DELAY_MAX"]) and a <= v <= b:
+                del self.await_draw[: n + 1]
+                if not ins.broken and ins.running and ins.k == 0 and ins.t_start is not None and abs(T - ins.t_start) <= RES:
+                    ins.Q = (T + v, T + v)
+                return
 
     def _stop(self, ins, T):
         if not ins.running or ins.broken:
             return
         ins.running = False
+        if ins in self.await_draw:
+            self.await_draw.remove(ins)  # cancelled before its task ran its first step: it never draws
         cyclic = bool(ins.t["CYCLIC_OFFER_DELAY"])
         if ins.k >= 1 or ins.ever_offered:
             expect = "one"
         elif ins.Q is not None and T < ins.Q[0] - RES:
             expect = "none" if cyclic else "either"
             self.probe("stop_before_first_offer")
-        elif ins.Q is not None and T > ins.Q[1] + self.tol(ins.Q[0], ins.Q[1]) + RES:
+        elif ins.Q is not None and T > self.FL(ins.Q[1]) + RES:
             expect = "one"  # the first offer was queued (it may still sit in the collector)
             self.probe("stop_with_first_offer_in_collector")
         else:
@@ -141,7 +164,7 @@ class AnnounceOracle:
                     self.probe("stop_with_delayed_find_answer_pending")
 
     def _stop_window(self, st):
-        return st["t"] + self.tau + self.tol(st["t"], st["t"] + self.tau)
+        return self.sent_by(st["t"])
 
     def on_op(self, T, label, failed):
         _, opidx, f, a = label[:4]
@@ -158,9 +181,8 @@ class AnnounceOracle:
         if f in ("start", "ann_start"):
             if not self.started and not self.conn_lost:
                 self.started = True
-                for i in self.insts:
-                    if i.announced:
-                        self._start(i, T)
+                for i in self.order:
+                    self._start(i, T)
         elif f in ("stop", "ann_stop", "conn_lost"):
             if f == "conn_lost":
                 if self.conn_lost:
@@ -174,17 +196,16 @@ class AnnounceOracle:
             i = self.helper if f.startswith("helper") else self.insts[a[0]]
             if not i.announced:
                 i.announced = True
+                self.order.append(i)
                 if self.started:
                     self._start(i, T)
         elif f in ("stop_announce", "helper_stop_announce"):
             i = self.helper if f.startswith("helper") else self.insts[a[0]]
             if i.announced:
                 i.announced = False
+                self.order.remove(i)
                 self._stop(i, T)
 
-    def on_busy(self, T, d):
-        self.busy.append((T - d, T))
-        self.epoch_kinds.add("busy")
 
     # ------------------------------------------------------------ finds
     def on_rx(self, T, chan, src, data):
@@ -216,9 +237,9 @@ class AnnounceOracle:
                         continue
                     if chan == "m":
                         lo = T + ins.t["REQUEST_RESPONSE_DELAY_MIN"]
-                        hi = T + ins.t["REQUEST_RESPONSE_DELAY_MAX"] + self.tau
+                        hi = self.sent_by(T + ins.t["REQUEST_RESPONSE_DELAY_MAX"])
                     else:
-                        lo, hi = T, T + self.tau
+                        lo, hi = T, self.sent_by(T)
                     self.expect.append(
                         dict(p=src, inst=ins, lo=lo, hi=hi, required=ready == "yes", tf=T, mc=chan == "m", done=False)
                     )
@@ -290,15 +311,16 @@ class AnnounceOracle:
             self.viol("CYCLIC-PERIOD", f"non-cyclic instance {ins.key} offered again at {T:.6f}", "noncyclic-extra")
             return
         lo, hi = ins.Q
-        tol = self.tol(lo, hi + self.tau)
+        last = self.sent_by(hi)
         rule = "FIRST-IN-WINDOW" if ins.k == 0 else "REPETITION-DOUBLING" if ins.k <= ins.t["REPETITIONS_MAX"] else "CYCLIC-PERIOD"
         if T < lo - RES:
             self.viol(rule, f"offer #{ins.k} of {ins.key} at {T:.6f}, earliest allowed {lo:.6f}", "early")
-        elif T > hi + self.tau + tol + RES:
-            self.viol(rule, f"offer #{ins.k} of {ins.key} at {T:.6f}, latest allowed {hi + self.tau + tol:.6f}", "late")
-        qlo, qhi = max(lo, T - self.tau - tol), min(hi + tol, T)
+        elif T > last + RES:
+            self.viol(rule, f"offer #{ins.k} of {ins.key} at {T:.6f}, latest allowed {last:.6f}", "late")
+        # the offer was queued at the (actual) wake-up q with q <= T and q + timeout >= (due time of the collector that fired at T)
+        qlo, qhi = max(lo, fire_start(self.busy, T) - self.tau), min(self.FL(hi), T)
         if qlo > qhi:
-            qlo = qhi = min(max(T - self.tau, lo), hi)
+            qlo = qhi = min(max(T - self.tau, lo), self.FL(hi))
         if ins.k == 0:
             ins.first_tx = T
             self.probe("first_offer_min_eq_max" if lo == hi else "first_offer_window")
@@ -336,7 +358,7 @@ class AnnounceOracle:
         self.nanswers += 1
         # C10 first: nothing after the StopOffer
         cands = [x for x in self.expect if x["inst"] is ins and x["p"] == dst and not x["done"]]
-        fit = [x for x in cands if x["lo"] - RES <= T <= x["hi"] + self.tol(x["lo"], x["hi"]) + RES]
+        fit = [x for x in cands if x["lo"] - RES <= T <= x["hi"] + RES]
         if self._after_stop(ins, T):
             x = fit[0] if fit else (cands[0] if cands else None)
             if x is None:
@@ -395,7 +417,7 @@ class AnnounceOracle:
                         break
                 continue
             x[2] = True
-            limit = x[1] + self.tau + self.tol(x[1], x[1] + self.tau)
+            limit = self.sent_by(x[1])
             if T > limit + RES:
                 self.q_viol.append(("DEADLINE", f"entry {e[:6]} queued at {x[1]:.6f} left at {T:.6f}, limit {limit:.6f}", "late"))
             if self.tau == 0 and T != x[1]:
@@ -410,7 +432,7 @@ class AnnounceOracle:
                 continue
             if ins.running and ins.Q is not None:
                 lo, hi = ins.Q
-                lim = hi + self.tau + self.tol(lo, hi + self.tau)
+                lim = self.sent_by(hi)
                 if T > lim + RES:
                     rule = "FIRST-IN-WINDOW" if ins.k == 0 else "REPETITION-DOUBLING" if ins.k <= ins.t["REPETITIONS_MAX"] else "CYCLIC-PERIOD"
                     self.viol(rule, f"offer #{ins.k} of {ins.key} not sent by {lim:.6f} (idle at {T:.6f})", "missing")
@@ -424,13 +446,13 @@ class AnnounceOracle:
                         self.viol("ONE-STOPOFFER", f"no StopOffer for {ins.key} by {lim:.6f} after the stop at {st['t']:.6f}", "missing")
                         st["expect"] = "reported"
         for x in self.expect:
-            if not x["done"] and T > x["hi"] + self.tol(x["lo"], x["hi"]) + RES:
+            if not x["done"] and T > x["hi"] + RES:
                 x["done"] = True
                 if x["required"] and not x["inst"].broken:
                     self.viol("ANSWER", f"FindService from {x['p'][0]} at {x['tf']:.6f} matching ready instance {x['inst'].key} was not answered by {x['hi']:.6f}", "missing")
         for dst, lst in self.queued.items():
             for x in lst:
-                if not x[2] and T > x[1] + self.tau + self.tol(x[1], x[1] + self.tau) + RES:
+                if not x[2] and T > self.sent_by(x[1]) + RES:
                     x[2] = True
                     self.q_viol.append(("EXACTLY-ONCE", f"entry {x[0][:6]} queued for {dst[0]} at {x[1]:.6f} was never sent", "lost"))
         self.states.add(
@@ -439,13 +461,17 @@ class AnnounceOracle:
         self.epoch_kinds = set()
 
     def walk(self, log):
+        # injected busy periods are part of the plan: known up front
+        self.busy = [(e[2] - e[5], e[2]) for e in log if e[4] == "busy"]
         for idx, (seq, it, T, actor, kind, data) in enumerate(log):
             if kind == "idle":
                 self.on_idle(T)
             elif kind == "busy":
-                self.on_busy(T, data)
+                self.epoch_kinds.add("busy")
             elif actor != self.node:
                 continue
+            elif kind == "uniform":
+                self.on_uniform(T, data[0], data[1], data[2])
             elif kind == "op":
                 nxt = log[idx + 1] if idx + 1 < len(log) else None
                 if nxt is not None and nxt[4] == "op-skip":
